@@ -75,6 +75,25 @@ def supersede(person, pref, conf):
             '}' % (person, person.capitalize(), pref, pref, conf))
 
 
+def chain():
+    """S1 -> S2 -> S3 -> S4 through the non-functional predicate "mentions"."""
+    return ('MUTATE {\n'
+            ' UPSERT CONCEPT ?a { MATCH {type: "Service", key: "svc:1"} SET FIELDS {name: "S1"} }\n'
+            ' UPSERT CONCEPT ?b { MATCH {type: "Service", key: "svc:2"} SET FIELDS {name: "S2"} }\n'
+            ' UPSERT CONCEPT ?c { MATCH {type: "Service", key: "svc:3"} SET FIELDS {name: "S3"} }\n'
+            ' UPSERT CONCEPT ?d { MATCH {type: "Service", key: "svc:4"} SET FIELDS {name: "S4"} }\n'
+            ' ENSURE PROPOSITION ?ab (?a, "mentions", ?b)\n'
+            ' ENSURE PROPOSITION ?bc (?b, "mentions", ?c)\n'
+            ' ENSURE PROPOSITION ?cd (?c, "mentions", ?d)\n'
+            '}')
+
+
+def cut_link(removal, frm, to):
+    """ARCHIVE / TOMBSTONE one link of the chain (a Proposition leaves ordinary recall)."""
+    return ('%s ?p WHERE { ?b CONCEPT {name: "%s"} ?c CONCEPT {name: "%s"} ?p PROPOSITION (?b, "mentions", ?c) }'
+            % (removal, frm, to))
+
+
 # ---- statements that must be refused (or have no effect), at different positions of the two-phase plan
 def expect_version_fails(k):
     return 'UPSERT CONCEPT ?p { MATCH {type: "Person", key: "person:%s"} EXPECT VERSION 99 SET FIELDS {name: "Nope"} }' % k
@@ -140,6 +159,10 @@ BATTERY = [
     'FIND(COUNT(?a)) WHERE { ?a ASSERTION {stance: "support"} } {coord}',
     'FIND(?s.name) WHERE { (?s, "prefers", ?o) ?o CONCEPT {name: "dark"} } {coord} ORDER BY ?s.name',
     'FIND(?a.stance) WHERE { ?a ASSERTION {confidence: 0.9} } {coord}',
+    'FIND(?to.name) WHERE { ?from CONCEPT {name: "S1"} (?from, "mentions"{1,3}, ?to) } {coord} ORDER BY ?to.name',
+    'FIND(?from.name) WHERE { ?to CONCEPT {name: "S4"} (?from, "mentions"{1,3}, ?to) } {coord} ORDER BY ?from.name',
+    'FIND(?from.name, ?to.name) WHERE { (?from, "mentions"{1,3}, ?to) } {coord} ORDER BY ?from.name, ?to.name',
+    'FIND(?from.name, ?to.name) WHERE { ?p PROPOSITION (?from, "mentions", ?to) } {coord} ORDER BY ?from.name',
     'FIND(?c.name, ?st) WHERE { ?c CONCEPT {type: "Person", state: ?st} } {coord} ORDER BY ?c.name',
     'FIND(?a.confidence) WHERE { ?a ASSERTION {stance: "support", mode: "stated"} FILTER(?a.confidence > 0.5) } {coord} ORDER BY ?a.confidence',
 ]
@@ -154,7 +177,8 @@ def good_statements(rng):
         experience("Deploy " + rng.choice("XYZ"), ["Step one", "Step two"][: rng.randrange(1, 3)]),
         update_summary(p.capitalize(), "rev " + str(rng.randrange(100))), rename(p.capitalize(), p.capitalize() + " R."),
         archive(p.capitalize()), tombstone(p.capitalize()), retract_one(), supersede(p, rng.choice(PREFS), "0.95"),
-        merge(p.capitalize(), rng.choice(PERSONS).capitalize()), forward_reference(),
+        merge(p.capitalize(), rng.choice(PERSONS).capitalize()), forward_reference(), chain(),
+        cut_link(rng.choice(["ARCHIVE", "TOMBSTONE"]), *rng.choice([("S1", "S2"), ("S2", "S3"), ("S3", "S4")])),
     ])
 
 
